@@ -224,9 +224,14 @@ def decl_chunks(spec, rng=None):
 def sprinkle(text, rng):
     """comments and odd whitespace between lines"""
     out = []
+    quotes = 0          # a MAL string may span lines: nothing is inserted inside one
     for line in text.split('\n'):
         r = rng.random()
-        if r < 0.05:
+        inside = quotes % 2 == 1
+        quotes += line.count('"')
+        if inside:
+            pass
+        elif r < 0.05:
             out.append('// a comment with "quotes" and -> arrows')
         elif r < 0.08:
             out.append('/* block\n   comment | & # */')
